@@ -191,6 +191,9 @@ def _events():
         ev["NS:" + slot] = {"kind": "node_set", "slot": slot, "foreign": False}
         ev["ES:" + slot] = {"kind": "element_set", "slot": slot, "foreign": False}
         ev["NSX:" + slot] = {"kind": "node_set", "slot": slot, "foreign": True}
+        # a second element set of the same size holding OTHER elements (the stored set's ids moved on by one position in
+        # the sorted element list): read together with a variable that exists on the first set's elements only
+        ev["ES2:" + slot] = {"kind": "element_set", "slot": slot, "foreign": False, "second": True}
         ev["ESX:" + slot] = {"kind": "element_set", "slot": slot, "foreign": True}
 
     def var(eid, slot, state, name, loc, cols, explicit, bad=None):
@@ -210,6 +213,12 @@ def _events():
             var("V:%s:%s:ENSUB" % (slot, st), slot, st, "ENSUB", "ELEMENT_NODAL", ["v"], True)
             ev["V:%s:%s:ENSUB" % (slot, st)]["subset"] = "elset"
             var("V:%s:%s:T" % (slot, st), slot, st, "T", "NODE", ["t"], True)
+            # a KNOWN variable name stored with fewer components than its default column names (in-plane displacements of
+            # a planar analysis, explicit column names at export and at import); straight after the export the driver also
+            # asks an importer for it with the DEFAULT names (whatever that attempt does - refusing is fine - is not judged:
+            # what is judged is every later export and import in the same process)
+            var("V:%s:%s:DISP2D" % (slot, st), slot, st, "DISPLACEMENT", "NODE", ["dx", "dy"], True)
+            ev["V:%s:%s:DISP2D" % (slot, st)]["probe_default_import"] = True
             # calls that cannot succeed
             var("V:%s:%s:BADCOL" % (slot, st), slot, st, "BADCOL", "NODE", ["nope"], True, bad="column")
             var("V:%s:%s:BADCOL_EN" % (slot, st), slot, st, "BADCOL_EN", "ELEMENT_NODAL", ["v", "nope"], True, bad="column")
@@ -255,11 +264,14 @@ class Model:
     def set_ids(self, ev):
         m = self.mesh_for(ev["slot"])
         ids = list(m["nset"] if ev["kind"] == "node_set" else m["elset"])
+        if ev.get("second"):
+            every = sorted({e for e, _ in m["rows"]})
+            ids = sorted({every[(every.index(e) + 1) % len(every)] for e in ids})
         return ids + [FOREIGN_ID] if ev["foreign"] else ids
 
     @staticmethod
     def set_name(ev):
-        return ("NSET" if ev["kind"] == "node_set" else "ELSET") + ("_X" if ev["foreign"] else "")
+        return ("NSET" if ev["kind"] == "node_set" else "ELSET") + ("_X" if ev["foreign"] else "") + ("2" if ev.get("second") else "")
 
     def apply(self, ev):
         k = ev["kind"]
@@ -269,7 +281,8 @@ class Model:
             self.sets.setdefault(ev["slot"], []).append((k, self.set_name(ev), self.set_ids(ev)))
         else:
             sub = sorted(self.mesh_for(ev["slot"])["elset"]) if ev.get("subset") == "elset" else None
-            self.vars.setdefault((ev["state"], ev["slot"]), []).append((ev["name"], ev["location"], list(ev["columns"] or []), sub))
+            self.vars.setdefault((ev["state"], ev["slot"]), []).append((ev["name"], ev["location"], list(ev["columns"] or []), sub,
+                                                                        bool(ev.get("probe_default_import"))))
 
     def content_size(self):
         return (len(self.geom), sum(len(v) for v in self.sets.values()), sum(len(v) for v in self.vars.values()))
@@ -277,12 +290,12 @@ class Model:
 
 MENU_QUICK = [
     "G:tri3", "G:quad4i", "G:triquad", "G:tri3noz", "G:tri6i", "G:pent5", "G:tet4", "G:tethex", "G:hextet_i", "G:tet10", "G:pyr5",
-    "NS:P", "ES:P", "NSX:P", "NS:S", "ES:S", "ESX:S",
+    "NS:P", "ES:P", "NSX:P", "NS:S", "ES:S", "ESX:S", "ES2:P", "V:P:s2:DISP2D",
     "V:P:s1:DISPLACEMENT", "V:P:s1:STRESS_CAUCHY", "V:P:s2:EN", "V:S:s1:STRESS_CAUCHY", "V:S:s1:T", "V:P:s1:ENSUB",
     "V:P:s1:BADCOL", "V:S:s2:NOLOC", "V:P:s1:BADVAL_EN",
 ]
 MENU_THOROUGH = MENU_QUICK + [
     "G:quad8", "G:hex8", "G:wedge6i",
     "V:S:s2:DISPLACEMENT", "V:P:s2:T", "V:S:s1:EN", "V:P:s1:E",
-    "V:S:s1:BADCOL_EN", "V:P:s2:NONAME", "NSX:S", "ESX:P", "V:S:s1:BADVAL",
+    "V:S:s1:BADCOL_EN", "V:P:s2:NONAME", "NSX:S", "ESX:P", "V:S:s1:BADVAL", "ES2:S", "V:S:s1:ENSUB",
 ]
